@@ -42,7 +42,25 @@ def value_bits(w):
 # C++ wrapper generation
 
 
+ALIGNED = [(8, 0), (8, 4), (8, 2), (8, 6), (8, 1), (4, 0), (4, 2), (4, 3), (2, 0), (2, 1)]     # (alignment, offset) template pairs of GetOffsetStorage
+
+
+def aligned_of(backing):
+    """("al8_4") -> (8, 4): the container is carved out of an 8-byte aligned buffer with GetOffsetStorage<8, 4>, as the
+    generated accessors of MakeAligned...View<..., 8> do; the MemoryAccessor chain then reaches the aligned fast paths."""
+    if backing.startswith("al"):
+        a, o = backing[2:].split("_")
+        return int(a), int(o)
+    return None
+
+
 def view_decl(T, w, c, order, backing, enum_ty=None):
+    al = aligned_of(backing)
+    if al:
+        s = ("  typedef ContiguousBuffer<unsigned char, 8, 0> CB8;\n  CB8 base{p, n};\n  auto st = base.GetOffsetStorage<%d, %d>(m, %d);\n"
+             "  typedef BitBlock<%s<decltype(st)>, %d> BB;\n  BB bb{st};\n" % (al[0], al[1], c // 8, ORDERER[order], c))
+        vt = "%sView<P<%d>, BB>" % (T, w) if T != "Enum" else "EnumView<%s, P<%d>, BB>" % (enum_ty, w)
+        return s + "  %s v{bb};\n" % vt
     bb = "BitBlock<%s<CB>, %d>" % (ORDERER[order], c)
     s = "  typedef %s BB;\n  CB base{p, n};\n  BB bb{base.GetOffsetStorage<1,0>(m, %d)};\n" % (bb, c // 8)
     if T == "Enum":
@@ -130,7 +148,7 @@ def block_ok(k, c):
 def field_bits(k, mem, w, c, order, backing):
     """The field's w bits as a BV(w), and the condition that the field lies inside the container."""
     C = container(k, mem, c, order)
-    if backing == "struct":
+    if backing != "bits":
         return C, z3.BoolVal(True)
     o = k.a0
     fits = z3.And(z3.ULE(o, bv(c - w, 64)))
@@ -195,8 +213,14 @@ def max_bcd(w):
     return 10 ** (w // 4) * 2 ** (w % 4) - 1
 
 
-def region_p(k):
+def region_p(k, backing="struct"):
     k.region("p", nonnull=False)
+    al = aligned_of(backing)
+    if al:
+        # what the caller of an aligned view promises: the buffer is 8-byte aligned, and the (compile-time) alignment and
+        # offset template arguments describe the run-time offset (C05: the inferred modulus / modular_value are sound)
+        k.requires(z3.URem(k.p, bv(8, 64)) == 0)
+        k.requires(z3.URem(k.m, bv(al[0], 64)) == bv(al[1], 64))
     # the carved container must not make the address computation wrap: offsets are sizes of real objects
     k.requires(z3.ULT(k.m, bv(1 << 59, 64)))
 
@@ -221,7 +245,7 @@ def decode(T, F, enum_ty=None):
 
 
 def contract_read(k, T, w, c, order, backing, enum_ty=None):
-    region_p(k)
+    region_p(k, backing)
     F, fits = field_bits(k, k.P0, w, c, order, backing)
     complete = z3.And(block_ok(k, c), fits)
     ok = complete
@@ -263,7 +287,7 @@ def could_write(T, w, v64, signed_arg, enum_ty=None):
 
 
 def contract_write(k, T, w, c, order, backing, enum_ty=None):
-    region_p(k)
+    region_p(k, backing)
     F0, fits = field_bits(k, k.P0, w, c, order, backing)
     complete = z3.And(block_ok(k, c), fits)
     v = k.a1
@@ -359,6 +383,12 @@ def configs(T, tier="quick", which="read"):
         out.append((8, 8, "Null", "struct", None))
         for w in range(1, 9):
             out.append((w, 8, "Null", "bits", None))
+        if T in ("UInt", "Int"):
+            # aligned fast paths of MemoryAccessor: whole-container fields of 2..8 bytes at every (alignment, offset) pair
+            for c in conts[1:]:
+                for order in ("LE", "BE"):
+                    for (a, o) in ALIGNED:
+                        out.append((c, c, order, "al%d_%d" % (a, o), None))
     elif T == "Flag":
         for c in conts:
             for order in ("LE", "BE"):
@@ -368,6 +398,8 @@ def configs(T, tier="quick", which="read"):
         for w in (32, 64):
             for order in ("LE", "BE"):
                 out.append((w, w, order, "struct", None))
+                for (a, o) in ((8, 0), (8, 4), (4, 0)):
+                    out.append((w, w, order, "al%d_%d" % (a, o), None))
     elif T == "Enum":
         for ety in ("EU8", "EU16", "EU32", "EU64", "ES8", "ES16", "ES32", "ES64"):
             ub = int(ety[2:])
